@@ -27,6 +27,20 @@ class Interrupter:
             raise KeyboardInterrupt
 
 
+class TraceFn:
+    """Picklable trace function; its first call (made by _init_traces to size the arrays, before sampling starts) is not counted."""
+
+    def __init__(self, intr):
+        self.intr, self.first = intr, True
+
+    def __call__(self, state):
+        if self.first:
+            self.first = False
+        else:
+            self.intr.tick()
+        return {"v": float(2 * int(state.pos[0]) + 1)}
+
+
 class RecTransition(Transition):
     def __init__(self, pp, pq, intr):
         self.pp, self.pq, self.intr, self.log = pp, pq, intr, []
@@ -119,14 +133,7 @@ def run_real(seed, inits, p0, n_warm, n_main, stager, adapters_on, has_trace, tr
     rng = np.random.Generator(getattr(np.random, bitgen)(seed))
     sampler = MarkovChainMonteCarloMethod(rng, {"t": trans})
 
-    first = [True]
-
-    def trace(state):
-        if first[0]:
-            first[0] = False      # the call made by _init_traces to size the arrays: before sampling starts
-        else:
-            intr.tick()
-        return {"v": float(2 * int(state.pos[0]) + 1)}
+    trace = TraceFn(intr)
 
     if init_kind == "state":
         init_states = [ChainState(pos=np.array([v], dtype=np.int64)) for v in inits]
